@@ -1002,6 +1002,12 @@ impl<'source> CodeGenerator<'source> {
                     if let Some(caller) = caller {
                         self.add(Instruction::LoadConst(Value::from("caller")));
                         self.compile_macro_expression(caller);
+                        // the body of the call block moved the current line.  What
+                        // follows belongs to the call again, whose span is the
+                        // innermost one.
+                        if let Some(span) = self.span_stack.last().copied() {
+                            self.set_line_from_span(span);
+                        }
                         pending_kwargs += 1
                     }
                 }
